@@ -107,3 +107,22 @@ Proof.
   intro H. unfold parse_pattern_list. rewrite split_render by exact H. rewrite map_map.
   apply map_ext_in. intros x I. apply parse_item_render. rewrite Forall_forall in H. now apply H.
 Qed.
+
+(* ---------- dlopen: skipping a library loses nothing ---------- *)
+Lemma module_skip_sound pl path so :
+  match_pattern_module pl path so = false ->
+  forall O name, match_pattern_list O pl path so name = 0%Z.
+Proof.
+  intros H O name. apply match_none. intros p I. unfold item_hits.
+  unfold match_pattern_module in H.
+  destruct (mod_applies path so (pi_mod p)) eqn:M; [|reflexivity].
+  assert (existsb (fun p => mod_applies path so (pi_mod p)) pl = true)
+    by (apply existsb_exists; exists p; split; assumption).
+  congruence.
+Qed.
+Lemma module_needed pl path so O name :
+  match_pattern_list O pl path so name <> 0%Z -> match_pattern_module pl path so = true.
+Proof.
+  intro H. destruct (match_pattern_module pl path so) eqn:E; [reflexivity|].
+  exfalso. apply H. now apply module_skip_sound.
+Qed.
